@@ -301,8 +301,15 @@ func (r *transport) handleCacheHit(
 	respNoCacheFieldsRaw, hasRespNoCache := ccResp.NoCache()
 	respNoCacheFieldsSeq, isRespNoCacheQualified := respNoCacheFieldsRaw.Value()
 
+	// Staleness irrespective of any allowance granted by the request (max-stale):
+	// must-revalidate and no-cache are not overridden by it (RFC 9111 §5.2.2.2, §5.2.2.4).
+	age := freshness.Age.Value + r.clock.Since(freshness.Age.Timestamp)
+	expired := freshness.IsStale || age >= freshness.UsefulLife
+	mustValidate := (expired && ccResp.MustRevalidate()) ||
+		(hasRespNoCache && !isRespNoCacheQualified) // Unqualified no-cache: must revalidate before serving from cache
+
 	// RFC 8246: If response is fresh and immutable, always serve from cache unless request has no-cache
-	if !freshness.IsStale && ccResp.Immutable() && !ccReq.NoCache() {
+	if !mustValidate && !freshness.IsStale && ccResp.Immutable() && !ccReq.NoCache() {
 		return r.serveFromCache(
 			req,
 			urlKey,
@@ -313,8 +320,7 @@ func (r *transport) handleCacheHit(
 		)
 	}
 
-	if (freshness.IsStale && ccResp.MustRevalidate()) ||
-		(hasRespNoCache && !isRespNoCacheQualified) { // Unqualified no-cache: must revalidate before serving from cache
+	if mustValidate {
 		goto revalidate
 	}
 
